@@ -22,26 +22,73 @@ ASSUME_SHIMS = [
     "machine integers are modelled exactly (fixed width, wrapping ops per vstd, truncating casts via bit_vector lemmas); usize is 64-bit in the quick tier, 32- and 64-bit in the thorough tier",
 ]
 
+DEFAULT_NOTE = ("assumes the table well-formedness seam (checked per instance, bounded, and for the generator arithmetic by layer G), vstd's specifications of core, "
+                "the listed shim contracts for std iterator adapters, rustc, and rules R1-R9 of the extraction")
+DEFAULT_TECHNIQUE = ("contract-based deductive verification (Verus) of function bodies extracted mechanically from the real macro expansion; "
+                     "bounded native instance checks for the seam and for replay")
+
+ENGINES = [
+    {"name": "layer-T", "path": "lib/layer_t.py", "serves_properties": ["C01", "C02", "C03", "C04", "C05", "C06", "C07", "C08"],
+     "kind_free_text": "Verus on function bodies extracted from the real macro expansion (vx, rules R1-R9) with contracts from contracts/overlay.vspec; parametric in the enum, one file per repr x cell"},
+    {"name": "layer-I", "path": "lib/layer_i.py", "serves_properties": ["C01", "C02", "C03", "C04", "C05", "C06", "C07", "C08"],
+     "kind_free_text": "real expansion of corpus enums compiled by rustc and executed natively against a declaration-derived oracle (bounded; supplies the emission seam and replay inputs)"},
+    {"name": "layer-S", "path": "lib/driver.py", "serves_properties": ["C06", "C07", "C08"],
+     "kind_free_text": "structural obligations on the expansion AST (forwarding form of wrapper methods outside Verus)"},
+]
+
 PROPS = {
     "C01": {
         "level": "proof",
+        "claim": "Verus proves the real try_from/TryFrom/into/Into bodies against the property's own statement for every enum of each shape and repr (unbounded over enums and arguments); the emission of the tables those proofs assume is checked per corpus instance (bounded, labelled so)",
         "layers": ["T", "I"],
         "explanation": "try_from/TryFrom/into/Into bodies taken from the real expansion are verified by Verus against `res == Some(E(n)) iff n is a declared discriminant` for an arbitrary enum of each shape and each of the 12 reprs; round-trip corollaries are verified callers; the table/constant emission is checked on corpus instances over the full repr domain (8/16-bit) or boundary+sampled values (wider).",
     },
     "C03": {
         "level": "proof",
+        "claim": 'Verus proves table-mode as_str and the Display/Debug/IntoStr forwarders for every enum, shape and repr incl. the index arithmetic; match-mode arms are per-enum data checked exhaustively per corpus instance (bounded)',
         "layers": ["T", "I"],
         "explanation": "table-mode as_str (both shapes) is verified to return names()[rank(self)] including the wrapping_sub/unsigned-cast index arithmetic for every repr; Display/Debug/IntoStr are verified to pass exactly that string on. match-mode arms and the __NAME table contents are per-enum data and are checked exhaustively over variants on corpus instances (bounded over enums).",
     },
     "C04": {
         "level": "proof",
+        "claim": 'Verus proves table-mode from_str/FromStr (first match in discriminant order, None iff no name matches) for every enum, shape and repr; match mode checked per corpus instance with designed probe strings (bounded)',
         "layers": ["T", "I"],
         "explanation": "table-mode from_str/FromStr (both shapes) verified: Some(e) iff s equals a name, e is the first variant in discriminant order with that name, None iff no name equals s; the gapless index->variant transmute argument is proved a variant. match mode is per-enum and is checked on corpus instances with every name, single-edit neighbours, case variants, whitespace and renamed identifiers (bounded).",
     },
     "C05": {
         "level": "proof",
+        "claim": 'Verus proves next/next_back (both shapes) return the least greater / greatest smaller variant and None exactly at MAX/MIN for arbitrary run tables incl. type-limit wrap; MIN/MAX emission per corpus instance (bounded)',
         "layers": ["T", "I"],
         "explanation": "next/next_back bodies (gapless and with holes) verified against `least variant greater than self / None iff self is the maximum` plus rank(next) == rank+1, for arbitrary run tables including runs touching the type limits; MIN/MAX emission checked on instances.",
+    },
+    "C02": {
+        "level": "proof",
+        "claim": 'every unsafe site of the generated code (transmute, unwrap_unchecked, assume_init) and every index/arithmetic step is a discharged Verus precondition for an arbitrary enum; an unsafe block without a verified body makes the check undecided',
+        "layers": ["T", "I", "U"],
+        "explanation": "C02 is the set of preconditions generated while proving the other properties: every transmute (rule R1: `requires is_variant`), every unwrap_unchecked (`requires is_some`), every MaybeUninit::assume_init (`requires initialised`, with write modelled by its vstd ghost state), every index/slice bound and every +1/-1/len arithmetic step in the real generated bodies is a Verus obligation, for an arbitrary enum of each shape and repr; the next_and_back iterator's representation invariant carries the argument over any history. Guard: every function with an unsafe block in every corpus expansion must be token-identical to a verified body. Panics and invalid values are also looked for natively on corpus instances (bounded).",
+        "assumptions": ["uninitialised reads are decided by layer T only (Kani's uninit instrumentation ICEs on this code)"],
+    },
+    "C06": {
+        "level": "proof",
+        "claim": 'representation-invariant proof for the next_and_back iterator (holds after any history) and verified constructor + wrapper contracts for the std-backed modes; std iterators are trusted by stated contracts; histories on instances are a bounded complement',
+        "layers": ["T", "I", "S"],
+        "explanation": "next_and_back mode: data-structure proof — iter() establishes view == all variants ascending, next/next_back/size_hint/len are verified to pop the front/back of the abstract view and preserve the representation invariant, so the claim holds after any finite history and fusedness is `len == 0 ==> None, unchanged`. range/table/table_inline modes: the constructor is verified to build the std iterator over exactly the ascending variants (transmute closure precondition, __ENUM well-formedness) and each wrapper method is verified against the same pop-front/pop-back/nth/last/len contract given the assumed contract of the std iterator; fold/rfold are checked structurally to forward verbatim. Defaults of Iterator (collect, count, rev, ...) are std's. Instances are run natively against a VecDeque model over designed + seeded histories (bounded).",
+        "assumptions": ["std's Copied<slice::Iter>, Map<RangeInclusive>, array::IntoIter are correct double-ended exact-size fused iterators over their source (contracts stated in contracts/shims.rs.tmpl)",
+                        "Iterator/DoubleEndedIterator default methods are correct for any conforming next/next_back/size_hint"],
+    },
+    "C07": {
+        "level": "proof",
+        "claim": "Verus proves all five uniform range() bodies against `view == variants between a and b, empty if a > b, no panic` for every enum, shape and repr; the iterator behaviour afterwards is C06's",
+        "layers": ["T", "I", "S"],
+        "explanation": "all five uniform range() bodies (gapless x {range, next_and_back, table}, holes x {next_and_back, table}) verified: result view == variants with rank in [rank(a), rank(b)] when a <= b, empty otherwise, no panic (slice bounds are Verus obligations), both MaybeUninit indices initialised on every path, index arithmetic == rank for every repr; the result is the same iterator struct as iter(), so C06's invariant/wrapper contracts carry it through any history. Instances: all ordered pairs for small enums, designed + seeded pairs otherwise, with histories (bounded).",
+        "assumptions": ["as C06"],
+    },
+    "C08": {
+        "level": "proof",
+        "claim": 'Verus proves names() builds the iterator over exactly the name table and the wrapper contracts; alignment with iter()/as_str follows from C03/C06 contracts; table contents per instance (bounded)',
+        "layers": ["T", "I", "S"],
+        "explanation": "names() is verified to build the std iterator over exactly the __NAME table (== names(), length == count()), its wrapper methods are verified against pop-front/pop-back/nth/last/len contracts, fold/rfold forward verbatim; as_str (C03) returns names()[rank(v)] and iter() yields the variant of rank i at position i, hence the zip alignment. __NAME contents in discriminant order: per corpus instance (bounded) and layer G.",
+        "assumptions": ["as C06"],
     },
 }
 
@@ -57,6 +104,16 @@ def collect(pid, tier, seed):
     if "I" in p["layers"]:
         o, m = driver.collect_I(pid, tier, seed, include_rejected=p.get("rejected", False))
         m["_layer"] = "I (instances, native, bounded)"
+        obs += o
+        metas.append(m)
+    if "S" in p["layers"]:
+        o, m = driver.collect_S_forwarding(pid, tier)
+        m["_layer"] = "S (structural obligations on the expansion)"
+        obs += o
+        metas.append(m)
+    if "U" in p["layers"]:
+        o, m = driver.collect_unsafe_coverage(tier, seed)
+        m["_layer"] = "U (unsafe-site coverage guard)"
         obs += o
         metas.append(m)
     return obs, metas
